@@ -324,10 +324,21 @@ pub fn run(o: &Opts) -> Report {
             strings.push(t);
         }
     }
+    // characters by encoding (and by display width: zero-width, wide, ambiguous), each in three small contexts
+    let sweep = crate::common::encoding_sweep(o.thorough);
+    // only characters that occupy display cells: the statement speaks of the cells of the marked characters,
+    // a zero-width character has none (and the formatter then draws no marker, which nothing forbids)
+    let sweep: Vec<char> = sweep.into_iter().filter(|c| !c.is_control() && unicode_width::UnicodeWidthChar::width_cjk(*c).unwrap_or(0) >= 1).collect();
+    for c in &sweep {
+        strings.push(format!("{}", c));
+        strings.push(format!("a{}\n{}b", c, c));
+        strings.push(format!("{}\t{}", c, c));
+    }
     if let Some(only) = &o.only {
         strings = vec![only.clone()];
     }
     let mut rep = par(&strings, check);
+    rep.cells.insert("characters_swept_by_encoding".into(), sweep.len() as u64);
     rep.max_len_done = n;
     rep.rules = strings.len() as u64;
     rep
